@@ -734,7 +734,7 @@ func (w *w1World) checkFilterAndDelta(in *w1Instance) {
 			// with JSON + fossil every payload travels as a JSON string
 			var str string
 			if err := json.Unmarshal(data, &str); err != nil {
-				s.Violate("C14", "delta-framing", "delta subscription payload is not a JSON string", "client %d %s offset %d: payload %q", in.cl.idx, in.ch, p.Offset, p.Data)
+				s.Violate("C14", "delta-framing", "delta subscription payload is not a JSON string"+w.rnq(), "client %d %s offset %d: payload %q", in.cl.idx, in.ch, p.Offset, p.Data)
 				continue
 			}
 			data = []byte(str)
@@ -749,12 +749,16 @@ func (w *w1World) checkFilterAndDelta(in *w1Instance) {
 			if p.Delta {
 				s.Probe("c14_real_delta")
 				if !haveBase {
-					s.Violate("C14", "delta-without-base", "delta delivered although the client holds no base", "client %d %s offset %d: first publication of the subscription is a delta", in.cl.idx, in.ch, p.Offset)
+					sig := "delta delivered although the client holds no base"
+					if in.reply != nil && in.reply.Recovered && len(in.reply.Pubs) == 0 {
+						sig += " (subscription recovered from a position whose payload the client never received)"
+					}
+					s.Violate("C14", "delta-without-base", sig+w.rnq(), "client %d %s offset %d: first publication of the subscription is a delta", in.cl.idx, in.ch, p.Offset)
 					continue
 				}
 				out, err := fdelta.Apply(base, data)
 				if err != nil {
-					s.Violate("C14", "delta-apply-failed", "delta does not apply to the held payload", "client %d %s offset %d: %v", in.cl.idx, in.ch, p.Offset, err)
+					s.Violate("C14", "delta-apply-failed", "delta does not apply to the held payload"+w.rnq(), "client %d %s offset %d: %v", in.cl.idx, in.ch, p.Offset, err)
 					continue
 				}
 				full = out
@@ -762,7 +766,7 @@ func (w *w1World) checkFilterAndDelta(in *w1Instance) {
 				full = data
 			}
 			if truth != nil && string(full) != truth.Data {
-				s.Violate("C14", "delta-wrong-result", "reconstructed payload differs from the published one", "client %d %s offset %d: reconstructed %q, published %q (delta=%v)", in.cl.idx, in.ch, p.Offset, full, truth.Data, p.Delta)
+				s.Violate("C14", "delta-wrong-result", "reconstructed payload differs from the published one"+w.rnq(), "client %d %s offset %d: reconstructed %q, published %q (delta=%v)", in.cl.idx, in.ch, p.Offset, full, truth.Data, p.Delta)
 			}
 			base, haveBase = full, true
 			continue
